@@ -350,10 +350,10 @@ pub fn run(run: &Run) {
     let thorough = run.thorough();
     let scratch = Run::new("scratch", "quick");
     let eng = Engine::new(&scratch);
-    let mut nets = vec![(NetID::Custom02, 0u128), (NetID::Custom08, 0), (NetID::Testnet, 0)];
+    // (mainnet is in the quick tier too: findings V and W sat there)
+    let mut nets = vec![(NetID::Custom02, 0u128), (NetID::Custom08, 0), (NetID::Testnet, 0), (NetID::Mainnet, 0)];
     if thorough {
         nets.push((NetID::Custom02, 65536));
-        nets.push((NetID::Mainnet, 0));
     }
     let mut total_parents = 0;
     for (net, fm) in nets {
